@@ -25,8 +25,11 @@ type tcfg struct {
 	// copying them (refstore.go)
 	RefStore bool `json:"storage_keeps_value_slices,omitempty"`
 	Max      int  `json:"max"`
-	Dyn      bool `json:"maxfunc"` // MaxFunc installed: reads X-Max, falls back to Max
-	E        int  `json:"expiration_s"`
+	// MaxOmitted: the Config passed to limiter.New sets neither Max nor MaxFunc; the documented
+	// default Max = 5 applies (Max is 5 here, for the oracle)
+	MaxOmitted bool `json:"max_omitted,omitempty"`
+	Dyn        bool `json:"maxfunc"` // MaxFunc installed: reads X-Max, falls back to Max
+	E          int  `json:"expiration_s"`
 	// ExpNs, when set, is the configured Expiration in nanoseconds (subsecond-expiration family:
 	// values that are not whole seconds); E is then meaningless.
 	ExpNs      int64 `json:"expiration_ns,omitempty"`
@@ -64,6 +67,9 @@ func (c tcfg) String() string {
 	if c.VStore && c.RefStore {
 		s += " (storage keeps value slices)"
 	}
+	if c.MaxOmitted {
+		s += " (Max and MaxFunc omitted: default 5)"
+	}
 	if c.Dyn {
 		s += " MaxFunc"
 	}
@@ -78,7 +84,7 @@ func (c tcfg) String() string {
 
 // appKey identifies configurations that can share one app (memory backend only, see memRig).
 func (c tcfg) appKey() string {
-	return fmt.Sprintf("%v/%d/%d/%d/%v/%v", c.Sliding, c.Max, c.E, c.ExpNs, c.SkipFailed, c.SkipOK)
+	return fmt.Sprintf("%v/%d/%v/%d/%d/%v/%v", c.Sliding, c.Max, c.MaxOmitted, c.E, c.ExpNs, c.SkipFailed, c.SkipOK)
 }
 
 // tstep is one request of a history.
@@ -89,6 +95,10 @@ type tstep struct {
 	Max   int    `json:"max,omitempty"` // X-Max header (MaxFunc configurations); 0 = absent
 	Mode  string `json:"handler"`       // what the protected handler does, see handle
 	Delay int    `json:"handler_sleep_s,omitempty"`
+	// Rekey k > 0: the handler of this request stores key k-1 as the identified user, so the
+	// KeyGenerator answers differently once the handler has run. The request was admitted — and
+	// is counted and judged — under Key.
+	Rekey int `json:"handler_identifies_user_as_key_plus_1,omitempty"`
 	// Async: the request runs in its own goroutine and its handler sleeps AsyncMs of virtual time
 	// while the history goes on sending requests (overlap family). The history does not wait.
 	Async   bool `json:"async,omitempty"`
@@ -195,7 +205,7 @@ func (rg *rig) ob(c fiber.Ctx) *tobs {
 func newRig(cfg tcfg) *rig {
 	rg := &rig{cfg: cfg}
 	lc := flim.Config{
-		Max:                    cfg.Max,
+		Max:                    map[bool]int{false: cfg.Max, true: 0}[cfg.MaxOmitted],
 		Expiration:             cfg.expiration(),
 		SkipFailedRequests:     cfg.SkipFailed,
 		SkipSuccessfulRequests: cfg.SkipOK,
@@ -203,6 +213,11 @@ func newRig(cfg tcfg) *rig {
 			rg.ob(c).KeyCalls++
 			if rg.yield != nil {
 				rg.yield("keygen")
+			}
+			// "the user if the handler chain has identified one, else the client": the answer
+			// changes once a handler has stored a user (X-Rekey requests do, see the handler)
+			if u, ok := c.Locals("user").(string); ok && u != "" {
+				return u
 			}
 			return utils.CopyString(c.Get("X-Key"))
 		},
@@ -241,6 +256,9 @@ func newRig(cfg tcfg) *rig {
 		if rg.yield != nil {
 			rg.yield("handler.entry")
 		}
+		if u := c.Get("X-Rekey"); u != "" {
+			c.Locals("user", utils.CopyString(u))
+		}
 		if n, err := strconv.Atoi(c.Get("X-DelayMs")); err == nil && n > 0 {
 			time.Sleep(time.Duration(n) * time.Millisecond)
 		}
@@ -278,7 +296,7 @@ func getRig(cfg tcfg) *rig {
 	// X-Max, which is what the default MaxFunc does); the nil-MaxFunc path is exercised by the
 	// per-history apps of the storage backend.
 	mk := cfg
-	mk.Dyn = true
+	mk.Dyn = !cfg.MaxOmitted
 	// create the store's ticker at phase k s + 250 ms, away from every instant the harness acts at
 	now := time.Now()
 	ph := time.Duration(now.Nanosecond())
@@ -367,6 +385,9 @@ func (rg *rig) exec(caseID string, steps []tstep, only int) ([]tobs, string) {
 		}
 		o.Seq = rg.tick()
 		rq := rg.request(i, keys[st.Key], st)
+		if st.Rekey > 0 && st.Rekey <= len(keys) {
+			rq.Hdr = append(rq.Hdr, drive.H{K: "X-Rekey", V: keys[st.Rekey-1]})
+		}
 		do := func() {
 			resp := rg.d.Do(rq)
 			o.TEnd = time.Now().UnixNano()
@@ -425,6 +446,9 @@ func describeSteps(steps []tstep, obs []tobs) []string {
 			fmt.Fprintf(&sb, " MaxFunc=%d", st.Max)
 		}
 		fmt.Fprintf(&sb, " handler=%s", st.Mode)
+		if st.Rekey > 0 {
+			fmt.Fprintf(&sb, " (handler identifies the user: KeyGenerator answers key=%d afterwards)", st.Rekey-1)
+		}
 		if st.Async {
 			fmt.Fprintf(&sb, " ASYNC sleeps %dms", st.AsyncMs)
 		}
